@@ -35,7 +35,8 @@ from gpmc.util import Fails, F64
 PROPERTY = "C15"
 RULE = ("objective cells = strategy {whitened, unwhitened} x likelihood {Gaussian, FixedNoise} x objective {ELBO, PLL} x priors on/off x added "
         "loss on/off x ALL 31 non-empty subsets of an n = 5 data set, each with num_data in {5, 10} x beta in {0.5, 1, 2}; bound / ngd cells = "
-        "strategy x likelihood x jitter {default, 1e-10} x 9-point q(u) lattice {prior, optimum, 6 generic, near-singular}; "
+        "strategy x likelihood x jitter {default, 1e-10} x 9-point q(u) lattice {prior, optimum, 6 generic, near-singular} (thorough: objective "
+        "cells at three q(u) instead of one); "
         "distinct / non-trivial = distinct cell whose objective evaluated")
 ASSUMPTIONS = [
     "K, m: one eager evaluation of the model's own kernel / mean on [Z; X]; noise read from the likelihood's public `noise` / the given vector",
@@ -58,9 +59,9 @@ def cells(tier, seed):
     subsets = sorted(range(1, 2 ** N_DATA), key=lambda b: (bin(b).count("1"), b))
     for strat, lik, obj, pri, add in itertools.product(["Variational", "Unwhitened"], ["Gaussian", "FixedNoise"], ["ELBO", "PLL"],
                                                        [0, 1], [0, 1]):
-        for sub in subsets:
+        for sub, qobj in itertools.product(subsets, ["g0"] if tier == "quick" else ["g0", "prior", "nearsingular"]):
             out.append({"what": "objective", "strategy": strat, "lik": lik, "dist": "Cholesky", "objective": obj, "priors": pri,
-                        "added": add, "subset": sub})
+                        "added": add, "subset": sub, "q": qobj})
     for what, strat, lik, jit, q in itertools.product(["bound", "ngd"], ["Variational", "Unwhitened"], ["Gaussian", "FixedNoise"],
                                                       ["default", "1e-10"], QNAMES):
         out.append({"what": what, "strategy": strat, "lik": lik, "dist": "Cholesky" if what == "bound" else "Natural",
@@ -238,7 +239,7 @@ def run_cell(cell, seed):
 
 def run_objective(cell, su, fails, notes):
     idx = torch.tensor([i for i in range(N_DATA) if cell["subset"] >> i & 1])
-    m, Sq = su.lattice_point("g0")
+    m, Sq = su.lattice_point(cell["q"])
     su.set_q(m, Sq)
     lp = su.log_priors() if cell["priors"] else 0.0
     added = ADDED if cell["added"] else 0.0
